@@ -60,7 +60,10 @@ func (memLibrary) LoadSource(ctx lisp.SourceContext, loc string) (string, string
 }
 
 func newEnv(profile string) *el.Env {
-	env := el.MustEnv(el.Opts{Stdlib: true, Configs: limitsFor(profile), Builtins: []lisp.LBuiltinDef{
+	// the fuzz profile (all text, depth and sink spaces) loads through the
+	// production reader parser.NewReader(), exactly as newFuzzEnv does; the
+	// registry sweeps use the same lexer and parser over a string scanner
+	env := el.MustEnv(el.Opts{Stdlib: true, ProdReader: profile == "fuzz", Configs: limitsFor(profile), Builtins: []lisp.LBuiltinDef{
 		el.Fn("c03-host", []string{"id"}, func(env *lisp.LEnv, args *lisp.LVal) *lisp.LVal {
 			id := args.Cells[0]
 			if id.Type != lisp.LString {
